@@ -62,31 +62,49 @@ NEEDS.update({
  "e16": "input: one rule listing the same port number for TCP and UDP",
  "e19": "interleaving: CloseHostports of a pod without host ports concurrent with OpenHostports/CloseHostports of a pod with one",
 })
-OTHER = {'b02': ['C03', 'C05'], 'a04': ['C10'], 'd02': ['C06'], 'd09': ['C05', 'C06'], 'e06': ['C08', 'C05'], 'e01': ['C09', 'C05'], 'e10': ['C04'], 'e04': ['C01']}
+
+NEEDS.update({
+ "f11": "input: sort=ip desc over more than one page (comparator compares an element with itself)",
+ "f12": "fault: plugin DEL fails at index >= 1 of a pod with >= 2 networks (failed list aliased onto the list being walked)",
+ "f13": "sequence/interleaving: a pod with bound IPs is set up, then a pod without args annotation (shared args map)",
+ "f14": "input + multi-step: port with hostIP, full sync (restart), then teardown",
+ "f15a": "input: pod address changes to one that is a textual prefix of the old one (10.0.0.12 -> 10.0.0.1)",
+ "f15b": "event: pod update with unchanged address that changes set membership (relabel into target / peer)",
+ "f16a": "policy shape + event: peer with namespaceSelector AND podSelector, pod event for a pod in a selected namespace not matching the podSelector",
+ "f16b": "input: same port number for TCP and UDP in one rule (same as e16, different edit)",
+ "f17": "input: docker mode, ip file in CRLF two-line form for a running container",
+ "f20": "input: nodeSubnets listing one network twice with different host bits",
+})
+OTHER = {'b02': ['C03', 'C05'], 'a04': ['C10'], 'd02': ['C06'], 'd09': ['C05', 'C06'], 'e06': ['C08', 'C05'], 'e01': ['C09', 'C05'], 'e10': ['C04'], 'e04': ['C01'], 'f13': ['C12'], 'f16a': ['C15'], 'f15b': ['C16']}
 only = sys.argv[1:]
 for sid, (prop, pkg) in SEEDS.items():
     if only and sid not in only: continue
     d = "/verif/seeded/" + sid
-    if subprocess.run("git -C /repo status --short | grep -q .", shell=True).returncode == 0:
-        print("/repo not clean"); sys.exit(2)
     if os.path.exists(d + "/NOT-PORTABLE.md"):
         print(sid, "skipped: not portable to the current HEAD, see NOT-PORTABLE.md"); continue
-    subprocess.check_call(["git", "-C", "/repo", "apply", patch_of(d)])
+    # the change is applied in a scratch worktree and handed to the check as a build overlay: /repo itself is never touched
+    wt = "/tmp/so_" + sid
+    subprocess.run(["git", "-C", "/repo", "worktree", "remove", "--force", wt], stdout=subprocess.DEVNULL, stderr=subprocess.DEVNULL)
+    subprocess.check_call(["git", "-C", "/repo", "worktree", "add", "-q", "--detach", wt, "HEAD"])
     also = {}
     try:
-        p = subprocess.run(["/verif/vcheck", prop, "--no-evidence"], stdout=subprocess.PIPE, stderr=subprocess.STDOUT, text=True)
+        subprocess.check_call(["git", "-C", wt, "apply", patch_of(d)])
+        changed = subprocess.run(["git", "-C", wt, "diff", "--name-only"], stdout=subprocess.PIPE, text=True).stdout.split()
+        ov = wt + "/overlay.json"
+        json.dump({"Replace": {"/repo/" + f: wt + "/" + f for f in changed}}, open(ov, "w"))
+        p = subprocess.run(["/verif/vcheck", prop, "--no-evidence", "--overlay", ov], stdout=subprocess.PIPE, stderr=subprocess.STDOUT, text=True)
         for other in OTHER.get(sid, []):
-            q = subprocess.run(["/verif/vcheck", other, "--no-evidence"], stdout=subprocess.PIPE, stderr=subprocess.STDOUT, text=True)
+            q = subprocess.run(["/verif/vcheck", other, "--no-evidence", "--overlay", ov], stdout=subprocess.PIPE, stderr=subprocess.STDOUT, text=True)
             mm = re.search(r"failure \[([^\]]+)\]", q.stdout)
             also[other] = {"exit": q.returncode, "signature": mm.group(1) if mm else None}
     finally:
-        subprocess.check_call(["git", "-C", "/repo", "checkout", "--", "."])
+        subprocess.run(["git", "-C", "/repo", "worktree", "remove", "--force", wt], stdout=subprocess.DEVNULL, stderr=subprocess.DEVNULL)
     m = re.search(r"failure \[([^\]]+)\]: (.*)", p.stdout)
     val = json.load(open(d + "/validation.json")) if os.path.exists(d + "/validation.json") else {}
     meta = {"seed": sid, "breaks_property": prop, "needs_to_manifest": NEEDS.get(sid, ""), "demonstration": [f for f in os.listdir(d) if f.endswith("_test.go")],
             "demonstration_package": pkg, "validated_in_scratch_worktree": val.get("valid"), "validation_run": val.get("run"),
             "detected_by": {"check": prop, "tier": "quick", "exit": p.returncode, "signature": m.group(1) if m else None, "message": (m.group(2)[:300] if m else None)},
             "also_checked": also,
-            "ran": "git -C /repo apply seeded/%s/patch.diff && ./vcheck %s ; git -C /repo checkout -- ." % (sid, prop)}
+            "ran": "python3 tools_seed_sweep.py %s   (the patch is applied in a scratch worktree and passed to ./vcheck %s as a go build overlay; equivalent to: git -C /repo apply seeded/%s/patch.diff && ./vcheck %s ; git -C /repo checkout -- .)" % (sid, prop, sid, prop)}
     json.dump(meta, open(d + "/meta.json", "w"), indent=1)
     print(sid, prop, "exit", p.returncode, m.group(1) if m else "-")
